@@ -124,7 +124,10 @@ def basic(cred):
 
 def authority(o, cred=None, upper=False):
     sch, host, port = ORIGINS[o]
-    a = (f"{cred[0]}:{cred[1]}@" if cred else "") + (host.upper() if upper else host)
+    ui = ""
+    if cred:
+        ui = (cred[0] if cred[1] == "" else f"{cred[0]}:{cred[1]}") + "@"
+    a = ui + (host.upper() if upper else host)
     if port != DEFAULT_PORT[sch]:
         a += f":{port}"
     return a
@@ -289,6 +292,7 @@ async def run_case(case, obs):
             t = nxt
         nxt = t
     hops.append(nxt)
+    valid_hops = next((k + 1 for k, (tok, t) in enumerate(loc_tok) if t is None), len(hops))
 
     seen, resps, events = [], [], []
     recording = [True]
@@ -310,13 +314,28 @@ async def run_case(case, obs):
             return super().close()
 
     async def handler(request):
-        data = await request.read()
+        # record the request as soon as its head is parsed: a body that never arrives must still be visible
+        entry = {"origin": request.transport.get_extra_info("c17_origin"), "method": request.method,
+                 "target": request.raw_path,
+                 "headers": [(k.decode("latin-1"), v.decode("latin-1")) for k, v in request.raw_headers], "body": None}
         i = len(seen)
-        seen.append({"origin": request.transport.get_extra_info("c17_origin"), "method": request.method,
-                     "target": request.raw_path,
-                     "headers": [(k.decode("latin-1"), v.decode("latin-1")) for k, v in request.raw_headers], "body": data})
+        seen.append(entry)
+        entry["body"] = await request.read()
         if i < len(script):
             status, hp, blen = script[i]
+            if request.method == "HEAD":
+                blen = 0        # no body bytes may follow the head of a response to HEAD
+            if blen < 0:
+                # body arrives in two instalments: the redirect is handled while the response is still open
+                resp = web.StreamResponse(status=status, headers=CIMultiDict(hp + [("Content-Length", str(-blen))]))
+                try:
+                    await resp.prepare(request)
+                    await resp.write(b"m" * (-blen // 2))
+                    await asyncio.sleep(0.5)
+                    await resp.write(b"m" * (-blen - (-blen // 2)))
+                except (ConnectionError, RuntimeError):
+                    pass
+                return resp
             return web.Response(status=status, headers=CIMultiDict(hp), body=b"m" * blen if blen else None)
         fin = case.get("final", {})
         return web.Response(status=fin.get("status", 200),
@@ -375,7 +394,8 @@ async def run_case(case, obs):
 
     obs.update({"model_line": model_line, "seen": seen, "events": events, "out": None, "final": None,
                 "leak_before": None, "leak_after": None, "hist": [], "hops": hops,
-                "twin_sel": twin_sel, "first_target": first_target, "body": body, "hdrs": hdrs})
+                "twin_sel": twin_sel, "first_target": first_target, "body": body, "hdrs": hdrs,
+                "valid_hops": valid_hops})
 
     # ---- the real thing
     saved = (client_mod.netrc_from_env, client_mod.get_env_proxy_for_url)
@@ -421,6 +441,8 @@ async def run_case(case, obs):
                 out = "err,invalidRedirectUrl"
             except ce.InvalidUrlClientError:
                 out = "err,invalidUrl"
+            except asyncio.TimeoutError:
+                out = "err,TIMEOUT"
             except ce.ClientError as e:
                 out = f"err,E_OTHER({type(e).__name__})"
             except ValueError:
@@ -438,12 +460,23 @@ async def run_case(case, obs):
     return obs
 
 
+def norm_events(line):
+    """release()/close() are idempotent: collapse consecutive repeats so that a second, redundant call is not a difference"""
+    head, sep, tail = line.partition(" # E ")
+    if not sep:
+        return line
+    evs, sep2, out = tail.partition(" # O ")
+    toks = evs.split(",")
+    ded = [t for i, t in enumerate(toks) if i == 0 or toks[i - 1] != t]
+    return head + sep + ",".join(ded) + sep2 + out
+
+
 def canon(res, hang):
     groups = []
     for s in res["seen"]:
         sch, host, port = s["origin"]
         groups.append(f"{0 if sch == 'http' else 1},{st(host)},{port} {st(s['method'])} {st(s['target'])} "
-                      f"{pairs_tok(s['headers'])} {hx(s['body'])}")
+                      f"{pairs_tok(s['headers'])} {hx(s['body']) if s['body'] is not None else 'BODY-NEVER-ARRIVED'}")
     groups.append("E " + (",".join(res["events"]) if res["events"] else "~"))
     groups.append("O " + ("HANG" if hang else str(res["out"])))
     return " # ".join(groups)
@@ -519,7 +552,7 @@ def oracle(ctx, case, res, hang):
                     ctx.violation(f"C17/confine/{kind}-credential-sent-off-origin", case,
                                   f"hop {k} to {s['origin']} carries credentials embedded in the URL of hop {h}")
         # jar cookies re-selected for this hop
-        if k < len(res["twin_sel"]):
+        if k < res["valid_hops"]:
             exp = dict(res["twin_sel"][k])
             live_caller = [] if left else (caller_hcookies + caller_rcookies)
             got = {}
@@ -536,9 +569,12 @@ def oracle(ctx, case, res, hang):
 
     # method / body table
     exp_body = res["body"][1] if res["body"] else b""
+    never = [k for k, s in enumerate(seen) if s["body"] is None]
+    if never or str(res["out"]) == "err,TIMEOUT":
+        hang = True
     if seen[0]["method"] != case["method"].upper() or seen[0]["body"] != exp_body:
         ctx.violation("C17/table/first-request-differs", case,
-                      f"first request is {seen[0]['method']} with {len(seen[0]['body'])} body bytes")
+                      f"first request is {seen[0]['method']} with body {seen[0]['body']!r}")
     for k in range(len(seen) - 1):
         if k >= len(chain):
             break
@@ -546,17 +582,18 @@ def oracle(ctx, case, res, hang):
         nxt = seen[k + 1]
         if (status == 303 and m != "HEAD") or (status in (301, 302) and m == "POST"):
             cl = hv(nxt, "content-length")
-            if nxt["method"] != "GET" or nxt["body"] != b"" or any(c not in ("0",) for c in cl) or hv(nxt, "transfer-encoding"):
+            if nxt["method"] != "GET" or (nxt["body"] or b"") != b"" or any(c not in ("0",) for c in cl) or hv(nxt, "transfer-encoding"):
                 ctx.violation("C17/table/rewrite-to-get-incomplete", case,
-                              f"{status} after {m}: next request is {nxt['method']} body={len(nxt['body'])} "
+                              f"{status} after {m}: next request is {nxt['method']} body={nxt['body']!r} "
                               f"Content-Length={cl} Transfer-Encoding={hv(nxt, 'transfer-encoding')}")
         else:
             if nxt["method"] != m or nxt["body"] != seen[k]["body"]:
                 ctx.violation("C17/table/method-or-body-not-preserved", case,
-                              f"{status} after {m}: next request is {nxt['method']} with {len(nxt['body'])} body bytes, "
-                              f"previous had {len(seen[k]['body'])}")
+                              f"{status} after {m}: next request is {nxt['method']} with body {nxt['body']!r}, "
+                              f"previous had {seen[k]['body']!r}")
     if hang:
-        ctx.violation("C17/table/request-never-completes", case, "the request neither returned nor raised")
+        ctx.violation("C17/table/request-never-completes", case,
+                      f"a server never received the body its request head announced / the call did not finish (requests without body: {never})")
         return
 
     # termination
@@ -628,7 +665,9 @@ def gen_loc(rng, cur_o, k, want=None, cred_p=0.2):
     o = rng.choice(cands) if rng.random() < 0.5 else rng.choice([c for c in cands if c in (0, 1, 3)] or cands)
     if rng.random() < 0.25 and cur_o in cands:
         o = cur_o
-    cred = [f"u{k + 1}", f"p{k + 1}"] if rng.random() < cred_p else None
+    cred = None
+    if rng.random() < cred_p:
+        cred = rng.choice([[f"u{k + 1}", f"p{k + 1}"], [f"u{k + 1}", f"p{k + 1}"], [f"u{k + 1}", ""], ["", f"p{k + 1}"]])
     return {"form": form, "o": o, "path": p, "cred": cred}, o
 
 
@@ -640,7 +679,8 @@ def gen_case(rng, *, n=None, method=None, body=None, statuses=None, forms=None, 
         # the in-memory aiohttp *server* does not read a HEAD request's body (it would be parsed as the next request)
         bkind = "none"
     o0 = rng.choice([0, 0, 0, 1, 2, 3, 4, 5, 6])
-    start = {"o": o0, "path": rpath(rng, "s"), "cred": ["u0", "p0"] if rng.random() < cred_p else None}
+    start = {"o": o0, "path": rpath(rng, "s"),
+             "cred": rng.choice([["u0", "p0"], ["u0", "p0"], ["u0", ""], ["", "p0"]]) if rng.random() < cred_p else None}
     headers = []
     if rng.random() < secrets_p:
         if rng.random() < 0.7 and not start["cred"]:
@@ -684,7 +724,7 @@ def gen_case(rng, *, n=None, method=None, body=None, statuses=None, forms=None, 
             r["set_cookie"] = rng.sample([f"s{k}=v{k}", f"t{k}=w{k}; Path=/d", f"dom{k}=x; Domain=a.test", f"sec{k}=y; Secure",
                                           "j0=overwritten", f"p{k}=q; Path=/nomatch"], rng.randint(1, 2))
         if rng.random() < 0.3:
-            r["body"] = rng.choice([1, 5, 300])
+            r["body"] = rng.choice([1, 5, 300, -2, -40])
         chain.append(r)
     case = {"max": maxr if maxr is not None else rng.choices([10, 0, 1, 2, 3, n, n + 1, max(n - 1, 1)], [40, 8, 6, 8, 8, 10, 10, 10])[0],
             "allow": rng.random() < 0.93, "trust": rng.random() < 0.2,
@@ -757,7 +797,26 @@ def corpus_cases():
 
 
 # ------------------------------------------------------------------------------ check
+def classify_generated(ctx, case):
+    chain = case["chain"]
+    os_ = [case["start"]["o"]]
+    for r in chain:
+        ctx.hit(f"gen:status:{r['status']}", "gen:form:" + r["loc"]["form"])
+        if r.get("body", 0) < 0:
+            ctx.hit("gen:slow-body")
+        if "o" in r["loc"]:
+            os_.append(r["loc"]["o"])
+    if any(os_[i] != os_[0] and os_[0] in os_[i + 1:] for i in range(1, len(os_))):
+        ctx.hit("gen:A-B-A")
+    if case["start"].get("cred") or any(r["loc"].get("cred") for r in chain):
+        ctx.hit("gen:url-credentials")
+    if case.get("trust"):
+        ctx.hit("gen:trust-env")
+    ctx.hit("gen:body:" + case["body"]["kind"])
+
+
 def classify(ctx, case, res, hang):
+    classify_generated(ctx, case)
     ctx.hit("len:" + str(len(case["chain"])))
     if res is None:
         ctx.hit("outcome:HANG-no-result")
@@ -797,7 +856,9 @@ def run_all(ctx, cases):
         oracle(ctx, case, res, hang)
         if res is not None:
             if outs is not None:
-                ctx.compare(case, impl, outs[j], "ClientSession._request vs Aio.C17.run")
+                ctx.compare(case, norm_events(impl), norm_events(outs[j]), "ClientSession._request vs Aio.C17.run")
+                mo = outs[j].rsplit("O ", 1)[-1].split(",")
+                ctx.hit("model-outcome:" + (mo[1] if mo[0] == "err" and len(mo) > 1 else mo[0]))
             j += 1
 
 
@@ -810,20 +871,25 @@ def check(ctx):
     walks = list(origin_walks())
     counters = list(counter_cases())
     if ctx.quick:
-        cases += rng.sample(table, 240) + rng.sample(walks, 120) + rng.sample(counters, 30)
-        n_rand, n_cred, n_forms = 900, 250, 250
+        cases += rng.sample(table, 400) + rng.sample(walks, 200) + counters
+        n_rand, n_cred, n_forms = 2400, 700, 700
     else:
         cases += table + walks + counters
         ctx.extra["exhaustive_small_scopes"] = ("all status x method x body-kind tables (x 3 continuations), all origin walks of "
                                                "length 3 over 4 origins x credential position, all (chain length, max_redirects) pairs <= (5, 7)")
-        n_rand, n_cred, n_forms = 14000, 3000, 3000
+        n_rand, n_cred, n_forms = 50000, 12000, 12000
     cases += [gen_case(rng) for _ in range(n_rand)]
     cases += [gen_case(rng, cred_p=0.6, secrets_p=0.9, n=rng.randint(2, 5), forms=["abs", "abs", "schemerel", "relpath", "rel", "absupper"],
                        statuses=list(REDIRECTS)) for _ in range(n_cred)]
     cases += [gen_case(rng, n=rng.randint(1, 4), statuses=list(REDIRECTS)) for _ in range(n_forms)]
     run_all(ctx, cases)
-    need = ["outcome:tooManyRedirects", "outcome:payloadConsumed", "outcome:nonHttpRedirect", "outcome:invalidRedirectUrl",
-            "A-B-A", "url-credentials", "form:schemerel", "form:rel", "form:none", "trust-env"] + [f"status:{s}" for s in REDIRECTS]
+    # blind spots are judged on what was generated (and on the model's verdicts), never on the implementation's behaviour
+    need = ["gen:A-B-A", "gen:url-credentials", "gen:trust-env", "gen:slow-body"] + \
+           [f"gen:form:{f}" for f in ("abs", "schemerel", "rel", "relpath", "none", "invalid", "nonhttp", "badorigin")] + \
+           [f"gen:status:{s}" for s in REDIRECTS] + [f"gen:body:{b}" for b in BODY_KINDS]
+    if ctx.model_available:
+        need += ["model-outcome:tooManyRedirects", "model-outcome:payloadConsumed", "model-outcome:nonHttpRedirect",
+                 "model-outcome:invalidRedirectUrl", "model-outcome:ok"]
     missing = [n for n in need if not ctx.hits.get(n)]
     if missing:
         from .common.guard import MachineryError
